@@ -9,12 +9,12 @@ package main
 // and model-free monitors evaluate the sentence of C16 on the real result.
 
 import (
-	"encoding/json"
-	"time"
 	"bytes"
 	"encoding/hex"
+	"encoding/json"
 	"fmt"
 	"strings"
+	"time"
 
 	"github.com/ethereum/go-ethereum/rlp"
 
@@ -36,6 +36,8 @@ type histNode struct {
 type history struct {
 	byHash  map[types.Hash]*histNode
 	blockIn map[types.Hash][]types.Hash // account-block hash -> momentums (of any branch) that contain it
+	blk    map[types.Hash][]byte // every account block the producer made (descendants included), by hash
+	byHash map[types.Hash]*histNode
 	paths  [][]types.Hash // full paths from genesis; paths[0] is the trunk; index = height-1
 	forkAt []uint64       // height of the last momentum shared with the trunk (0 for the trunk itself)
 }
@@ -59,6 +61,7 @@ func (h *history) record(dm *nom.DetailedMomentum) *histNode {
 			h.blockIn = map[types.Hash][]types.Hash{}
 		}
 		h.blockIn[b.Hash] = append(h.blockIn[b.Hash], n.hash)
+		h.blk[b.Hash] = bb
 	}
 	h.byHash[n.hash] = n
 	return n
@@ -136,13 +139,14 @@ func traffic(c *Ctx, a *producer, pending *[]*nom.AccountBlock, pSend, pRecv int
 }
 
 func buildHistory(c *Ctx, a *producer, L int, forks []forkSpec) *history {
-	h := &history{byHash: map[types.Hash]*histNode{}}
+	h := &history{byHash: map[types.Hash]*histNode{}, blk: map[types.Hash][]byte{}}
 	gen := a.bridge.GetBlock(a.z.Chain().GetGenesisMomentum().Hash)
 	h.record(gen)
 	trunk := []types.Hash{gen.Momentum.Hash}
 	var pending []*nom.AccountBlock
 	for len(trunk) < L {
 		traffic(c, a, &pending, 45, 35)
+		contractTraffic(c, a, 45)
 		dm := a.momentum()
 		h.record(dm)
 		trunk = append(trunk, dm.Momentum.Hash)
@@ -171,6 +175,7 @@ func buildHistory(c *Ctx, a *producer, L int, forks []forkSpec) *history {
 				}
 			} else {
 				traffic(c, a, &pending, 30, 20)
+				contractTraffic(c, a, 30)
 			}
 			dm := a.momentum()
 			if i == 0 && dm.Momentum.Hash == trunk[fpH] {
@@ -203,6 +208,10 @@ type elem struct {
 	dm    *nom.DetailedMomentum
 	valid bool   // producer's own bytes (true) or corrupted by the generator (false)
 	note  string // corruption kind
+	// lenient: one account block was altered only in fields the node recomputes for itself (plasma fields, uncovered fields of
+	// descendants, the stand-alone copy of a contract send). Adopting the momentum (with the producer's bytes — M1 checks that) and
+	// refusing it both satisfy C16; the `valid` bit of the line follows what the node did with this element.
+	lenient bool
 }
 
 func h8e(h types.Hash) string { return hex.EncodeToString(h[:8]) }
@@ -302,6 +311,14 @@ func corrupt(c *Ctx, hist *history, e *elem, kind string) {
 	case "blockamount":
 		b := e.dm.AccountBlocks[userBlock]
 		b.Data = append(append([]byte{}, b.Data...), 0x01)
+		if b.BlockType == nom.BlockTypeUserSend && types.IsEmbeddedAddress(b.ToAddress) {
+			// the call data of a send to an embedded contract is re-packed by the contract's own validation: trailing bytes are
+			// recomputed away (or refused) — the implementation's choice, the node holds the producer's bytes either way (M1/M4)
+			e.lenient = true
+			e.note = kind
+			c.Hit("corrupt-" + kind + "-lenient")
+			return
+		}
 	case "timestamp":
 		m.TimestampUnix++
 		ts := m.Timestamp.Add(1e9)
@@ -366,7 +383,17 @@ type syncFollower struct {
 	id       int
 	switches int // how many times this node left its chain (or was rolled back)
 	lastOK   bool // the most recent delivery was accepted completely
+	history  []string
 }
+
+func (f *syncFollower) remember(kind, class string) {
+	f.history = append(f.history, kind+"->"+class)
+	if len(f.history) > 6 {
+		f.history = f.history[len(f.history)-6:]
+	}
+}
+
+func (f *syncFollower) recent() string { return "[" + strings.Join(f.history, ", ") + "]" }
 
 type syncRun struct {
 	c     *Ctx
@@ -407,7 +434,6 @@ func (r *syncRun) deliver(f *syncFollower, kind string, batch []elem) bool {
 	toks := make([]string, len(batch))
 	for i, e := range batch {
 		dms[i] = e.dm
-		toks[i] = elemTok(e)
 	}
 	idx, err, pn := f.insertChain(wire(dms))
 	f.lastOK = err == nil && pn == nil
@@ -417,13 +443,31 @@ func (r *syncRun) deliver(f *syncFollower, kind string, batch []elem) bool {
 		class = "panic"
 		idx = 0
 	}
+	for i := range batch {
+		if batch[i].lenient && class == "verify" && idx == i {
+			batch[i].valid = false // the node chose to refuse the altered copy
+			c.Hit("lenient-refused")
+		} else if batch[i].lenient {
+			c.Hit("lenient-not-refused")
+		}
+		toks[i] = elemTok(batch[i])
+	}
 	c.Emit("sync-insert %d %s %d %s | %d %s %d %s", f.id, kind, len(batch), strings.Join(toks, " "), idx, class, len(after), joinHashes(after))
 	c.Hit("kind-" + kind)
 	c.Hit("result-" + class)
 	if err != nil && class == "verify" {
 		c.Hit("verify-err-" + shortErr(err))
 	}
+	var notes []string
+	for i, e := range batch {
+		if e.note != "" {
+			notes = append(notes, fmt.Sprintf("element %d: %s", i, e.note))
+		}
+	}
 	desc := fmt.Sprintf("kind=%s batch=[%s] frontier-before=%d:%s", kind, strings.Join(toks, " "), len(before), h8e(before[len(before)-1]))
+	if len(notes) > 0 {
+		desc += " altered=[" + strings.Join(notes, "; ") + "]"
+	}
 	ok := true
 
 	// M0: the call must not panic (a panic on the downloader/fetcher goroutine kills the process). The classes empty-batch and
@@ -464,6 +508,20 @@ func (r *syncRun) deliver(f *syncFollower, kind string, batch []elem) bool {
 			break
 		}
 	}
+	// M4: nothing in the pool of unconfirmed blocks differs from what the producer made
+	if !r.poolMonitor(f, desc) {
+		ok = false
+	}
+	// M5: a chain whose every element is genuine and that extends the node's frontier is adopted — whatever was refused before
+	if pn == nil && ok && linksAsExtension(before, batch) {
+		last := batch[len(batch)-1].dm.Momentum
+		if err != nil || after[len(after)-1] != last.Hash {
+			c.Fail("C16 class=genuine-extension-refused a batch of genuine momentums that extends the node's frontier was not adopted: index %d, error %v, "+
+				"frontier %d:%s; previous deliveries to this node: %s; %s", idx, err, len(after), h8e(after[len(after)-1]), f.recent(), desc)
+			ok = false
+		}
+	}
+	f.remember(kind, class)
 	// M2: the node leaves its chain only for a strictly longer one that forks at most 30 below its frontier
 	if !isPrefix(before, after) {
 		cp := commonPrefix(before, after)
@@ -890,6 +948,9 @@ func init() {
 			}
 		}
 
+		// ---- part 2c: directed: every account-block mutation (s_syncbatches_ab.go) once, each followed by the genuine version
+		r.directedAB()
+
 		// ---- part 3: random operations on short-lived followers placed near the fork points ----------------
 		for r.tests < c.N {
 			f := r.newFollower()
@@ -1152,9 +1213,35 @@ func (r *syncRun) invalidOp(f *syncFollower, cur []types.Hash, p int, forceKind 
 		b[pos].valid = true
 		b[pos].note += "-of-pooled-block"
 		c.Hit("corrupt-ignored-pooled-block")
+	ids := idsOf(b)
+	done := false
+	if forceKind == "" && c.R.Intn(5) < 2 {
+		// one account block of one unknown momentum altered (the first momentum at or behind pos that has a block of the wanted type)
+		m := &abMutations[c.R.Intn(len(abMutations))]
+		for off := 0; off < len(b)-first && !done; off++ {
+			p := first + (pos-first+off)%(len(b)-first)
+			if corruptAB(c, &b[p], m, c.R.Intn(3)) {
+				pos, done = p, true
+			}
+		}
+	}
+	if !done {
+	corrupt(c, r.hist, &b[pos], ck)
 	}
 	c.Hit(fmt.Sprintf("invalid-at-%s", map[bool]string{true: "first", false: map[bool]string{true: "last", false: "middle"}[pos == len(b)-1]}[pos == first]))
-	return r.deliver(f, kind+"-"+b[pos].note, b)
+	note := b[pos].note
+	if i := strings.IndexByte(note, '@'); i > 0 {
+		note = note[:i]
+	}
+	if !r.deliver(f, kind+"-"+note, b) {
+		return false
+	}
+	// second step: the genuine version of the same chain, from an honest peer
+	if f.lastOK {
+		return true
+	}
+	c.Hit("genuine-after-refusal")
+	return r.deliver(f, "genuine-after-"+kind+"-"+note, r.genuineOf(ids))
 }
 
 // siblingOp: [x, sibling of x] or a reversed pair — the second element does not link to the first.
